@@ -2,18 +2,19 @@
 # confirm_seed.sh <ID> <variant>  : confirm a seeded change in a scratch worktree (outside /repo and /verif)
 #   demo passes on the clean tree; with the patch: builds, demo FAILS, existing suite passes. Writes /tmp/seeded-out/<ID>/confirm_<v>.txt
 id=$1; v=$2
+OUT=${SEED_OUT:-/tmp/seeded-out}; PFX=${SEED_PREFIX:-seeded}
 wt=/tmp/confirm-wt-$id$v
-out=/tmp/seeded-out/$id/confirm_$v.txt
+out=$OUT/$id/confirm_$v.txt
 export CARGO_TARGET_DIR=/tmp/confirm-target CARGO_NET_OFFLINE=true TMPDIR=/tmp/confirm-tmp-$id$v
 mkdir -p $TMPDIR
 rm -rf $wt; git -C /repo worktree add -q --detach $wt HEAD || exit 2
 cd $wt
-demo=seeded_${id}_$v
-cp /tmp/seeded-out/$id/$demo.rs tests/$demo.rs
+demo=${PFX}_${id}_$v
+cp $OUT/$id/$demo.rs tests/$demo.rs
 {
 echo "== clean tree: demo"
 cargo test --offline --test $demo 2>&1 | grep -E "^test result|^error" | head -3
-git apply /tmp/seeded-out/$id/$v.patch && echo "== patch applied"
+git apply $OUT/$id/$v.patch && echo "== patch applied"
 echo "== build"; cargo build --offline 2>&1 | tail -1
 echo "== patched: demo (expected to FAIL)"
 cargo test --offline --test $demo 2>&1 | grep -E "^test result|^error" | head -3
